@@ -1673,7 +1673,7 @@ fn main() {
     let mut t = Trace::from_args();
     let seed = seed_from_env();
     let thorough = arg_str("--tier").as_deref() == Some("thorough");
-    let nseq = arg_u64("--seqs", if thorough { 700 } else { 150 });
+    let nseq = arg_u64("--seqs", if thorough { 700 } else { 260 });
     let len = arg_u64("--len", 45);
     let mut rng = Rng::new(seed);
     if arg_str("--skip-directed").is_none() {
